@@ -182,6 +182,8 @@ Lemma mild_with_cur s x : mild s (with_cur s x). Proof. apply mild_view; reflexi
 Lemma mild_put_batch k b s : mild s (put_batch k b s). Proof. apply mild_view; reflexivity. Qed.
 Lemma mild_pop_task s : mild s (pop_task s). Proof. apply mild_view; reflexivity. Qed.
 Lemma mild_reset_sched s : mild s (reset_sched s). Proof. apply mild_view; reflexivity. Qed.
+Lemma mild_drop_sb s : mild s (drop_sb s).
+Proof. apply mild_view; [apply heap_drop_sb|apply top_next_drop_sb|apply trace_drop_sb]. Qed.
 
 Ltac mstep :=
   match goal with
@@ -198,6 +200,7 @@ Ltac mstep :=
   | |- mild _ (put_batch _ _ _) => eapply mild_trans; [|apply mild_put_batch]
   | |- mild _ (pop_task _) => eapply mild_trans; [|apply mild_pop_task]
   | |- mild _ (reset_sched _) => eapply mild_trans; [|apply mild_reset_sched]
+  | |- mild _ (drop_sb _) => eapply mild_trans; [|apply mild_drop_sb]
   end.
 Ltac mm := repeat mstep.
 
@@ -447,6 +450,7 @@ Lemma keep_with_active s x : keep s (with_active s x). Proof. apply keep_view; r
 Lemma keep_with_cur s x : keep s (with_cur s x). Proof. apply keep_view; reflexivity. Qed.
 Lemma keep_pop_task s : keep s (pop_task s). Proof. apply keep_view; reflexivity. Qed.
 Lemma keep_reset_sched s : keep s (reset_sched s). Proof. apply keep_view; reflexivity. Qed.
+Lemma keep_drop_sb s : keep s (drop_sb s). Proof. apply keep_view; [apply heap_drop_sb|apply batches_drop_sb]. Qed.
 
 Ltac kstep :=
   match goal with
@@ -461,6 +465,7 @@ Ltac kstep :=
   | |- keep _ (with_cur _ _) => eapply keep_trans; [|apply keep_with_cur]
   | |- keep _ (pop_task _) => eapply keep_trans; [|apply keep_pop_task]
   | |- keep _ (reset_sched _) => eapply keep_trans; [|apply keep_reset_sched]
+  | |- keep _ (drop_sb _) => eapply keep_trans; [|apply keep_drop_sb]
   | |- keep _ (set_task _ _ _) =>
       eapply keep_trans; [|first [eapply keep_set_task; eassumption | eapply keep_set_task'; eassumption]]
   end.
@@ -770,6 +775,7 @@ Ltac kh :=
   | |- keep _ (with_tasks _ _) => eapply keep_trans; [|apply keep_with_tasks]
   | |- keep _ (with_active _ _) => eapply keep_trans; [|apply keep_with_active]
   | |- keep _ (reset_sched _) => eapply keep_trans; [|apply keep_reset_sched]
+  | |- keep _ (drop_sb _) => eapply keep_trans; [|apply keep_drop_sb]
   | |- keep _ (resume_contexts _ _) => eapply keep_trans; [|apply keep_resume_contexts]
   | |- keep _ (pause_contexts _ _) => eapply keep_trans; [|apply keep_pause_contexts]
   | |- keep _ (complete_task _ _ _) => eapply keep_trans; [|apply keep_complete_task]
@@ -956,6 +962,7 @@ Ltac mh :=
   | |- mild _ (with_tasks _ _) => eapply mild_trans; [|apply mild_with_tasks]
   | |- mild _ (with_active _ _) => eapply mild_trans; [|apply mild_with_active]
   | |- mild _ (reset_sched _) => eapply mild_trans; [|apply mild_reset_sched]
+  | |- mild _ (drop_sb _) => eapply mild_trans; [|apply mild_drop_sb]
   | |- mild _ (resume_contexts _ _) => eapply mild_trans; [|apply mild_resume_contexts]
   | |- mild _ (pause_contexts _ _) => eapply mild_trans; [|apply mild_pause_contexts]
   | |- mild _ (complete_task _ _ _) => eapply mild_trans; [|apply mild_complete_task]
@@ -1010,7 +1017,7 @@ Proof.
     cbn in HS. discriminate HS.
   - (* MAfterExec *)
     destruct fr as [|[| |root| |] fr']; cbn [c_st]; try apply mild_refl.
-    destruct (computed root s) eqn:C; cbn [c_st]; [apply mild_refl|cbn in HE; discriminate].
+    destruct (computed root s) eqn:C; cbn [c_st]; [apply mild_drop_sb|cbn in HE; discriminate].
   - (* MRun *)
     destruct p as [v|v|e|y k|f k|h k|cx k|cx k|var k|k]; cbn [c_st];
       try (destr_eq; mh; fail).
